@@ -510,11 +510,13 @@ def DocDefect (doc : SDoc) : LoadErr → Prop
   | .yaml => False
   | .core e => CoreDefect doc.expando doc.globals [] (fun _ => False) doc.core e
   /- an error in the n-th rewriter, judged in the scope of the rule's utilities and those of the
-     rewriters before it; a duplicate id / a reference to its own id are reported under `Rule` -/
+     rewriters before it, with the variables the rule CAPTURES as upper variables of its fix (a
+     transformation key of the rule is NOT one: FIX_C12_3); a duplicate id / a reference to its own
+     id are reported under `Rule` -/
   | .rewriter e id => ∃ pre rw post, rewritersOf doc = pre ++ rw :: post ∧ rw.id = id ∧
       ((e = .rule .duplicateRule ∧ id ∈ pre.map (·.id)) ∨
        (e = .rule .cyclicRule ∧ RefsSame true rw.core.rule id) ∨
-       CoreDefect doc.expando doc.globals (scopeAfter (utilsOf doc) pre) (Available doc) rw.core e)
+       CoreDefect doc.expando doc.globals (scopeAfter (utilsOf doc) pre) (Captured doc) rw.core e)
   | .undefinedRewriter r => r ∉ rewriterIds doc ∧
       (r ∈ usedRewritersOf doc.core ∨ ∃ rw ∈ rewritersOf doc, r ∈ usedRewritersOf rw.core)
   | .noFixInRewriter id => ∃ rw ∈ rewritersOf doc, rw.id = id ∧ rw.core.fix = none
@@ -604,7 +606,8 @@ theorem load_error_sound (doc : SDoc) (E : LoadErr) (h : load doc = .err E) : Do
     obtain ⟨hm, hinfo⟩ := core_ok_post RegMatches.nil hg
     simp only [List.nil_append] at hm
     subst hinfo
-    have hup := mem_info_definedVars_iff doc hm
+    have hup : ∀ v, v ∈ rewriterUpper Fixes.all (coreInfoOf Fixes.all reg doc.core) ↔ Captured doc v :=
+      mem_info_capturedVars_iff doc hm
     cases hrw : loadRewriters Fixes.all doc reg (coreInfoOf Fixes.all reg doc.core) with
     | panic s => rw [hrw] at h; cases h
     | err e =>
@@ -638,12 +641,12 @@ theorem load_error_sound (doc : SDoc) (E : LoadErr) (h : load doc = .err E) : Do
         rw [hr] at hrw
         simp only at hrw
         have hrws : rewritersOf doc = rws := by unfold rewritersOf; rw [hr]; rfl
-        cases hreg : registerRewriters Fixes.all doc.expando doc.globals (coreInfoOf Fixes.all reg doc.core).definedVars rws reg [] with
+        cases hreg : registerRewriters Fixes.all doc.expando doc.globals (rewriterUpper Fixes.all (coreInfoOf Fixes.all reg doc.core)) rws reg [] with
         | panic s => rw [hreg] at hrw; cases hrw
         | err e' =>
           rw [hreg] at hrw
           injection hrw with hrw; subst hrw
-          rcases rewriters_error_sound doc.expando doc.globals _ (Available doc) hup rws [] e' hm hreg with
+          rcases rewriters_error_sound doc.expando doc.globals _ (Captured doc) hup rws [] e' hm hreg with
             ⟨id, hE, rw, hrw', h1, h2⟩ | ⟨e, id, pre, rw, post, hE, hsplit, hid, hd⟩
           · subst hE
             exact ⟨rw, hrws ▸ hrw', h1, h2⟩
@@ -744,7 +747,7 @@ theorem docRewriterScope_accepted : ∃ L, load docRewriterScope = .ok L := exis
 
 /-- the rewriter core is consistent in the scope `[u]` of the rule's utilities, with `$A` from the
 enclosing rule -/
-example : RewritersConsistent [] (Available docRewriterScope) (utilsOf docRewriterScope) []
+example : RewritersConsistent [] (Captured docRewriterScope) (utilsOf docRewriterScope) []
     (rewritersOf docRewriterScope) := by
   obtain ⟨L, h⟩ := docRewriterScope_accepted
   exact (accept_vars_defined_doc docRewriterScope L h).1.rewriters
@@ -759,6 +762,77 @@ def docRewriterUndefVar : SDoc :=
 
 example : DocDefect docRewriterUndefVar (.rewriter (.undefinedMetaVar ['Z'] .fix) ['r','w']) :=
   load_error_sound _ _ (err_of_verdict (by decide))
+
+/-! ### a rewriter's fix cannot use a transformation key of the enclosing rule (FIX_C12_3)
+
+`register_rewriters` checked the variables of a rewriter's fix against `rule.defined_vars()`, which
+holds the keys of the rule's `transform` section; but a rewriter's fix is expanded on the nodes the
+match CAPTURED — a transformed text is not among them.  The released code accepted the document
+below and replaced `$T` by nothing; the repaired one (`rule.captured_vars()`) rejects it. -/
+
+/-- the enclosing rule has a transformation `T`, the rewriter's fix reads `$T`:
+```yaml
+rule: {kind: K7, pattern: foo($A)}
+transform: {T: {substring: {source: $A}}, R: {rewrite: {source: $A, rewriters: [rw]}}}
+rewriters: [{id: rw, rule: {kind: K1, pattern: $I}, fix: "$T$I"}]
+``` -/
+def docRewriterOuterTransform : SDoc :=
+  { core :=
+      { rule := .mk [.pattern true [['A']] (some [7]), .kind true 7],
+        transform := some [(['T'], .substring ['$','A']), (['R'], .rewrite ['$','A'] [['r','w']])] },
+    rewriters := some [⟨['r','w'],
+      { rule := .mk [.pattern true [['I']] (some [1]), .kind true 1],
+        fix := some (.str [0x24, 0x54, 0x24, 0x49]) }⟩] }
+
+/-- `T` is available in the rule (its own fix could use it) but it is not captured -/
+theorem docRewriterOuterTransform_T :
+    Available docRewriterOuterTransform ['T'] ∧ ¬ Captured docRewriterOuterTransform ['T'] := by
+  refine ⟨Or.inr (by decide), ?_⟩
+  have hv : (load docRewriterOuterTransform).verdict = .err (.rewriter (.undefinedMetaVar ['T'] .fix) ['r','w']) := by
+    decide
+  obtain ⟨pre, rw, post, _, _, hd⟩ := load_error_sound _ _ (err_of_verdict hv)
+  rcases hd with ⟨he, _⟩ | ⟨he, _⟩ | hd
+  · cases he
+  · cases he
+  · exact fun hc => hd.2 (Or.inr (Or.inr hc))
+
+/-- **regression (FIX_C12_3).** The repaired loader rejects the document with the rewriter's
+undefined-variable error, section `fix` (`Rewriter.UndefinedMetaVar.fix` in the harness' naming) -/
+theorem rewriter_fix_outer_transform_rejected :
+    (load docRewriterOuterTransform).verdict =
+      .err (.rewriter (.undefinedMetaVar ['T'] .fix) ['r','w']) := by decide
+
+/-- the same through the characterisation: the document is not `ConsistentDoc` (the rewriter's
+`fixDefined` clause fails for `T`), so no loader run can accept it -/
+theorem rewriter_fix_outer_transform_inconsistent : ¬ ConsistentDoc docRewriterOuterTransform := by
+  intro hc
+  have hr : RewritersConsistent [] (Captured docRewriterOuterTransform) (utilsOf docRewriterOuterTransform) []
+      (rewritersOf docRewriterOuterTransform) := hc.rewriters
+  obtain ⟨_, _, _, hcc, _⟩ := hr
+  rcases hcc.fixDefined ['T'] (by decide) with h | h | h
+  · rcases h with h | ⟨id, r, hl, _⟩ | ⟨c, hc', _⟩
+    · -- the rewriter's rule captures `I` only
+      have := (mem_definedVars_iff _ _).mpr h
+      revert this; decide
+    · simp [utilsOf, utilsOfCore, docRewriterOuterTransform, alookup] at hl
+    · cases hc'
+  · revert h; decide
+  · exact docRewriterOuterTransform_T.2 h
+
+/-- the loader with every repair but this one (`register_rewriters` as released: upper variables =
+`defined_vars()`) -/
+def loadRewriterUpperPinned (doc : SDoc) : Res LoadErr Loaded :=
+  loadWith { Fixes.all with rewriterCaptured := false } doc
+
+/-- **the released behaviour, kept as a documented fact:** it ACCEPTED the document (and `$T`
+expanded to nothing at rewrite time: the rewriter's environment holds captured nodes only) — so did
+the pinned loader -/
+theorem rewriter_fix_outer_transform_pinned_accepted :
+    (loadRewriterUpperPinned docRewriterOuterTransform).verdict = .ok () ∧
+    (loadPreFix docRewriterOuterTransform).verdict = .ok () := by decide
+
+/-- and a captured variable of the enclosing rule is still allowed (`docRewriterScope`: `$A`) -/
+example : Captured docRewriterScope ['A'] := Or.inl ((mem_definedVars_iff _ _).mp (by decide))
 
 /-- a rewriter utility named like a utility of the rule: `DuplicateRule`, reported for rewriter `rw` -/
 def docRewriterClash : SDoc :=
